@@ -53,3 +53,11 @@ def digest(result):
         return tuple(sorted((int(a), int(b), float(c)) for a, b, c in result))
     except Exception:
         return repr(result)[:200]
+
+
+SELF_ENGINES = ("nearest_neighbor", "symdel", "hash_based", "kdtree")
+
+
+def run_self(acc, eng, seqs, k, **kw):
+    import pyrepseq
+    return acc.call(getattr(pyrepseq, eng), seqs, k, **kw)
